@@ -77,6 +77,23 @@ def integerise(Q, Ts, rc, n_bins, n_median_bins):
     return G, off, [t.shape[1] for t in Ts], V2
 
 
+def hash_injective(Ts, n_target_bins):
+    """the documented column hash (each row scaled to 0..n_target_bins-1 and rounded): do distinct pooled columns get distinct codes?"""
+    T = numpy.concatenate(Ts, axis=-1)
+    lo = T.min(axis=-1, keepdims=True); hi = T.max(axis=-1, keepdims=True)
+    hi = numpy.where(hi == lo, lo + 1, hi)
+    codes = numpy.around((T - lo) / (hi - lo) * (n_target_bins - 1)).astype(numpy.int64)
+    cols = {}
+    for j in range(T.shape[1]):
+        key = tuple(codes[:, j])
+        if key in cols and not numpy.array_equal(cols[key], T[:, j]):
+            return False
+        cols[key] = T[:, j]
+    # keep away from rounding ties of the hash itself
+    frac = (T - lo) / (hi - lo) * (n_target_bins - 1)
+    return bool((numpy.abs(frac - numpy.floor(frac) - 0.5) > 1e-6).all())
+
+
 def gen_case(rng, cid, big=False):
     if big:
         nq = rng.randint(2, 25); tl = [rng.randint(1, 25) for _ in range(rng.randint(1, 3))]
@@ -132,6 +149,21 @@ def handler(case):
                             reverse_complement=True, n_jobs=1)
                 rec["rc_p_same"] = bool(torch.allclose(r2[0], r[0], rtol=1e-9, atol=1e-12))
                 rec["rc_score_same"] = bool((r2[1] == r[1]).all())
+            # column hashing, where it is injective (distinct pooled target columns get distinct codes), must not change anything:
+            # the same call with n_target_bins=100, then with the target list reversed, then reverse-complemented -- all in this
+            # process, one after the other (same shapes and sums, different column order)
+            if hash_injective(Ts, 100):
+                rec["hashed"] = 1
+                kwh = dict(n_score_bins=c["n_bins"], n_target_bins=100, reverse_complement=c["rc"], n_jobs=1)
+                for name, Tv, perm in (("hash_same", Ts, False), ("hash_rev_same", Ts[::-1], True),
+                                       ("hash_rc_same", [t[::-1, ::-1] for t in Ts], False)):
+                    if name == "hash_rc_same" and not c["rc"]:
+                        continue
+                    rh = tomtom([Q], [torch.from_numpy(t.copy()) for t in Tv], **kwh)
+                    ph, sh = rh[0, 0], rh[1, 0]
+                    if perm:
+                        ph, sh = ph.flip(0), sh.flip(0)
+                    rec[name] = bool(torch.allclose(ph, r[0, 0], rtol=1e-9, atol=1e-12)) and bool((sh == r[1, 0]).all())
         except Exception as e:
             rec["st"] = "err"; rec["msg"] = "%s: %s" % (type(e).__name__, str(e)[:80])
         out.append(rec)
